@@ -198,6 +198,8 @@ def listings(prog):
         "SHOW OBJECTS IN SCHEMA qualified": node("Show", "stmt", this=Const("OBJECTS"), terse=Const(False), scope=table("S", "D"), scope_kind=Const("SCHEMA")),
         "SHOW SCHEMAS": node("Show", "stmt", this=Const("SCHEMAS"), terse=Const(False)),
         "SHOW SCHEMAS IN DATABASE": node("Show", "stmt", this=Const("SCHEMAS"), terse=Const(False), scope=table("D"), scope_kind=Const("DATABASE")),
+        # the short form: the pinned parser files the name under scope_kind TABLE
+        "SHOW SCHEMAS IN <database>": node("Show", "stmt", this=Const("SCHEMAS"), terse=Const(False), scope=table("D"), scope_kind=Const("TABLE")),
         "SHOW PRIMARY KEYS": node("Show", "stmt", this=Const("PRIMARY KEYS"), terse=Const(False)),
         "SHOW UNIQUE KEYS": node("Show", "stmt", this=Const("UNIQUE KEYS"), terse=Const(False)),
         "SHOW IMPORTED KEYS": node("Show", "stmt", this=Const("IMPORTED KEYS"), terse=Const(False)),
@@ -322,6 +324,7 @@ def rule_scope(ctx):
         "SHOW TABLES IN SCHEMA": {"TABLE_CATALOG": "CUR_DB", "TABLE_SCHEMA": "S"},
         "SHOW OBJECTS IN SCHEMA qualified": {"TABLE_CATALOG": "D", "TABLE_SCHEMA": "S"},
         "SHOW SCHEMAS IN DATABASE": {"CATALOG_NAME": "D"},
+        "SHOW SCHEMAS IN <database>": {"CATALOG_NAME": "D"},
         "SHOW PRIMARY KEYS IN SCHEMA": {"DATABASE_NAME": "D", "SCHEMA_NAME": "S"},
         "SHOW PRIMARY KEYS IN TABLE": {"TABLE_NAME": "T", "SCHEMA_NAME": "S"},
     }
